@@ -19,7 +19,7 @@ var errNegativeSeek = errors.New("unixfs file: seek to a negative position")
 func NewUnixFSFile(ctx context.Context, substrate ipld.Node, lsys *ipld.LinkSystem) (LargeBytesNode, error) {
 	if substrate.Kind() == ipld.Kind_Bytes {
 		// A raw / single-node file.
-		return &singleNodeFile{substrate}, nil
+		return &singleNodeFile{Node: substrate, substrate: substrate}, nil
 	}
 	// see if it's got children.
 	links, err := substrate.LookupByString("Links")
@@ -64,7 +64,10 @@ type LargeBytesNode interface {
 }
 
 type singleNodeFile struct {
+	// the bytes of the file
 	ipld.Node
+	// the node the file was reified from
+	substrate ipld.Node
 }
 
 func (f *singleNodeFile) AsLargeBytes() (io.ReadSeeker, error) {
@@ -72,7 +75,7 @@ func (f *singleNodeFile) AsLargeBytes() (io.ReadSeeker, error) {
 }
 
 func (f *singleNodeFile) Substrate() datamodel.Node {
-	return f.Node
+	return f.substrate
 }
 
 type singleNodeReader struct {
